@@ -130,7 +130,8 @@ def check_C02(tier):
         explanation="MIR-level clause of C02: for every externally reachable function not documented as variable-time "
                     "(name contains 'vartime' or rustdoc says 'not constant-time'), no SwitchInt discriminant, "
                     "bounds-checked index, slice range, division operand or value-reading std call is data-flow reachable "
-                    "from a secret parameter/field, interprocedurally (symbolic summaries, field- and variant-sensitive "
+                    "from a secret parameter/field, and no comparison operator produces a bool from a secret (the crate's arithmetic-mask "
+                    "discipline: a bool computed from secret data is what LLVM turns into a branch), interprocedurally (symbolic summaries, field- and variant-sensitive "
                     "store with points-to). Secrets = everything except lengths, literals, usize/bool/&str parameters and "
                     "the reviewed tables/secrecy.json. Status-word tests in Option/bool-returning functions are the "
                     "documented declassification. NOT decided: what LLVM does to the MIR afterwards (machine code).",
